@@ -10,8 +10,8 @@ from .recipes import containers_of
 from .c09 import run_recipe
 
 PROPERTY = 'C15'
-BOUNDS = ("Baked recipe programs as in C09 (quick: all 1-step programs and every 2-step program whose steps share an object; thorough: all 2-step and 300 "
-          "seeded 3-step programs over the 21 templates, symbolic quantities, every stage split point); for every "
+BOUNDS = ("Baked recipe programs as in C09 (quick: all 1-step programs and every 2-step program whose steps share an object; thorough: all 2-step and 120 "
+          "seeded 3-step programs over the 22 templates, symbolic quantities, every stage split point); for every "
           "object used (containers A, B, C, S, F and the 2x2 plate P, per well), timeframes all / s1 / s2 restricted to "
           "those in which the object is touched, units uL and mg (thorough: + umol, mL, g): get_amount_remaining "
           "before/after equals the object's total content at the start/end of the timeframe in the eager ledger; "
@@ -35,13 +35,15 @@ def cells(tier, seed):
     else:
         p3 = [p for p in R.programs(3) if len(p) == 3]
         rng.shuffle(p3)
-        progs = p1 + p2 + p3[:300]
+        progs = p1 + p2 + p3[:120]
         units = ['uL', 'mL', 'mg', 'g', 'umol']
     for prog in progs:
         for k in range(0, len(prog) + 1):
             if tier == 'quick' and k != 1:
                 continue
-            groups = [units] if tier == 'quick' else [units[:2], units[2:]]
+            if tier == 'thorough' and len(prog) == 3 and k not in (1, 2):
+                continue
+            groups = [units] if tier == 'quick' else ([units[:2], units[2:]] if len(prog) < 3 else [units[:2]])
             for gi, group in enumerate(groups):
                 out.append({'id': f"prog/{','.join(prog)}/k{k}/u{gi}", 'fn': 'h_flows', 'round': 'lite', 'max_paths': 400,
                             'cost': 2 ** len(prog), 'gens': 200,
